@@ -429,3 +429,88 @@ def check_bare_kinds(ctx, target: str, rule: str) -> None:
             else:
                 ctx.ok(rule, m, a, what=what)
     ctx.require_anchor(n >= 3, f"{target}: the transpiler has no_parentheses kind tuples")
+
+
+# parse-tree kinds whose operands are consumed as plain values by an operator of the target language: `!x`, `x && y`, `x + y`,
+# `!a || c`, the condition of a quantifier.  An optional (C++ ``common::optional``, Go pointer) in such a position changes the meaning
+# (`!opt` is "has no value", `opt && y` tests presence) or does not compile, so the operand goes through the dereferencing helper.
+VALUE_POSITIONS = {
+    "Not": ("operand",),
+    "Implication": ("antecedent", "consequent"),
+    "And": ("values",),
+    "Or": ("values",),
+    "Add": ("left", "right"),
+    "Sub": ("left", "right"),
+    "Any": ("condition",),
+    "All": ("condition",),
+}
+
+
+def _deref_helpers(ci: ClassInfo) -> List[FuncInfo]:
+    """Methods that transpile their node with ``self.transform`` and return the code behind a ``*`` (structural, not by name)."""
+    out = []
+    for m in ci.methods.values():
+        args = [a.arg for a in m.node.args.args[1:]]
+        if len(args) != 1:
+            continue
+        calls_transform = any(
+            isinstance(c, ast.Call) and dotted_of(c.func) == "self.transform" and c.args and isinstance(c.args[0], ast.Name) and c.args[0].id == args[0]
+            for c in ast.walk(m.node)
+        )
+        stars = False
+        for r in ast.walk(m.node):
+            if isinstance(r, ast.JoinedStr) and r.values and isinstance(r.values[0], ast.Constant) and str(r.values[0].value).lstrip("(").startswith("*"):
+                stars = True
+        if calls_transform and stars:
+            out.append(m)
+    return out
+
+
+def check_deref(ctx, target: str, rule: str) -> None:
+    """In a transpiler that has a dereferencing helper, every operand in a value position is transpiled through the helper."""
+    ci = transpiler_class(ctx, target)
+    helpers = _deref_helpers(ci)
+    ctx.require_anchor(len(helpers) >= 1, f"{target}: the transpiler has a dereference-if-optional helper")
+    helper_names = {h.name for h in helpers}
+    for m in ci.methods.values():
+        if m.name in helper_names or len(m.node.args.args) < 2:
+            continue
+        param = m.node.args.args[1]
+        if param.annotation is None:
+            continue
+        kinds = {n.attr for n in ast.walk(param.annotation) if isinstance(n, ast.Attribute)} & set(VALUE_POSITIONS)
+        if not kinds:
+            continue
+        fields = {f for k in kinds for f in VALUE_POSITIONS[k]}
+        # loop variables over node.values
+        elems = {}
+        for n in ast.walk(m.node):
+            if isinstance(n, (ast.For, ast.comprehension)) and isinstance(n.target, ast.Name):
+                it = n.iter
+                if isinstance(it, ast.Call) and dotted_of(it.func) == "enumerate" and it.args:
+                    it = it.args[0]
+                if isinstance(it, ast.Attribute) and isinstance(it.value, ast.Name) and it.value.id == param.arg and it.attr in fields:
+                    elems[n.target.id] = it.attr
+            if isinstance(n, (ast.For, ast.comprehension)) and isinstance(n.target, ast.Tuple) and isinstance(n.iter, ast.Call) and dotted_of(n.iter.func) == "enumerate" and n.iter.args:
+                it = n.iter.args[0]
+                if isinstance(it, ast.Attribute) and isinstance(it.value, ast.Name) and it.value.id == param.arg and it.attr in fields and isinstance(n.target.elts[-1], ast.Name):
+                    elems[n.target.elts[-1].id] = it.attr
+        for c in ast.walk(m.node):
+            if not (isinstance(c, ast.Call) and isinstance(c.func, ast.Attribute) and isinstance(c.func.value, ast.Name) and c.func.value.id == "self"):
+                continue
+            callee = c.func.attr
+            if callee != "transform" and callee not in helper_names:
+                continue
+            arg = c.args[0] if c.args else next((k.value for k in c.keywords if k.arg == "node"), None)
+            pos = None
+            if isinstance(arg, ast.Attribute) and isinstance(arg.value, ast.Name) and arg.value.id == param.arg and arg.attr in fields:
+                pos = arg.attr
+            elif isinstance(arg, ast.Name) and arg.id in elems:
+                pos = elems[arg.id] + "[i]"
+            if pos is None:
+                continue
+            what = f"{target}: {m.name}: operand {pos} is dereferenced if optional"
+            if callee in helper_names:
+                ctx.ok(rule, m, c, what=what)
+            else:
+                ctx.fail(rule, m, c, f"{target}: {m.name} transpiles the operand `{pos}` of {sorted(kinds)} with self.transform instead of {sorted(helper_names)[0]}: an optional operand (non-null only by a preceding `is not None` guard) reaches the operator undereferenced, so e.g. `!opt` tests presence instead of the value and disagrees with the Python verification", construct=what)
